@@ -147,7 +147,9 @@ var $go = (fun, args) => {
             }
             $goroutine.exit = true;
         } catch (err) {
-            if (!$goroutine.exit) {
+            /* Only the null thrown by runtime.Goexit ends the goroutine quietly;
+               a panic raised while it unwinds is still fatal. */
+            if (!$goroutine.exit || err !== null) {
                 throw err;
             }
         } finally {
